@@ -419,6 +419,13 @@ func (g *Gen) genTx() []string {
 	sessions := vk.Session.GetSessions(ctx)
 	h := 0.12 // hostile probability per address argument
 	a := g.actor()
+	// related-party stream: an owner-restricted message sent by somebody who is a party of the record, but not its owner
+	if g.chance(0.05) {
+		if toks := g.relatedTx(); toks != nil {
+			g.stats["gen.related."+toks[0]]++
+			return toks
+		}
+	}
 	// goal-directed stream: drive the marketplace towards deep states (plan sessions on shared quota with usage)
 	if g.deep && g.chance(0.35) {
 		if toks := g.goalTx(); toks != nil {
@@ -738,12 +745,21 @@ func (g *Gen) genTx() []string {
 		if g.chance(0.5) {
 			down = big.NewInt(0)
 		}
+		repeat := false
+		if ok && g.chance(0.12) {
+			// the very figures the session already records (a keep-alive; 0/0/0 on a fresh session)
+			up, down = s.Bandwidth.Upload.BigInt(), s.Bandwidth.Download.BigInt()
+			repeat = true
+		}
 		if g.chance(0.02) {
 			up = big.NewInt(-1)
 		}
 		dur := int64(g.pick(100000))
 		if g.chance(0.03) {
 			dur = -1
+		}
+		if repeat {
+			dur = int64(s.Duration)
 		}
 		sig := "nil"
 		if ok && up.Sign() >= 0 && up.BitLen() <= 256 && down.BitLen() <= 256 {
@@ -756,6 +772,23 @@ func (g *Gen) genTx() []string {
 				}
 			}
 			switch {
+			case signer != nil && g.chance(0.1):
+				// a genuine signature of the subscriber, but over OTHER figures than the reported ones
+				other := proof
+				small := proof.Bandwidth.Upload.BigInt().BitLen() < 200 && proof.Bandwidth.Download.BigInt().BitLen() < 200
+				switch k := g.pick(4); {
+				case k == 1 && small:
+					other.Bandwidth = hubtypes.NewBandwidth(proof.Bandwidth.Upload.AddRaw(1), proof.Bandwidth.Download)
+				case k == 2 && small:
+					other.Bandwidth = hubtypes.NewBandwidth(proof.Bandwidth.Upload, proof.Bandwidth.Download.AddRaw(1))
+				case k == 3:
+					other.ID = proof.ID + 1
+				default:
+					other.Duration = proof.Duration + 1
+				}
+				obz, _ := other.Marshal()
+				sb, _ := signer.Sign(obz)
+				sig = hex.EncodeToString(sb)
 			case signer != nil && g.chance(0.8):
 				sb, _ := signer.Sign(bz)
 				sig = hex.EncodeToString(sb)
@@ -810,6 +843,9 @@ func (g *Gen) urlOrEmpty() string {
 
 // genGov: parameter changes that stay inside DESIGN §5.1/§5.3
 func (g *Gen) genGov() []string {
+	if g.chance(0.15) {
+		return g.badGov()
+	}
 	out := []string{}
 	n := 1 + g.pick(3)
 	np := g.e.vk.Node.GetParams(g.e.ctx)
@@ -1130,6 +1166,179 @@ func (g *Gen) goalNodeSession() []string {
 		return []string{"sess_update", g.ta('n', ss.GetNodeAddress().Bytes()).Tok(), fmt.Sprint(ss.ID), up.String(), "0", fmt.Sprint(dur), sig, "0"}
 	case found && ss.Status == hubtypes.StatusActive:
 		return []string{"sess_end", g.ta('a', owner.Bytes()).Tok(), fmt.Sprint(ss.ID), fmt.Sprint(g.pick(11))}
+	}
+	return nil
+}
+
+// badGov: a proposal with at least one change its per-key validator must refuse (the whole proposal then has no
+// effect).  It touches no trajectory bookkeeping: the valid companions are changes the trajectory does not track.
+func (g *Gen) badGov() []string {
+	out := []string{}
+	if g.chance(0.5) {
+		out = append(out, "sess_proof", boolTok(g.chance(0.5)))
+	}
+	if g.chance(0.3) {
+		out = append(out, "swap_enabled", boolTok(g.chance(0.7)))
+	}
+	one := new(big.Int).Exp(big.NewInt(10), big.NewInt(18), nil)
+	i64 := new(big.Int).Lsh(big.NewInt(1), 63)
+	switch g.pick(9) {
+	case 0:
+		out = append(out, []string{"node_share", "prov_share"}[g.pick(2)], g.oneOf(big.NewInt(-1), badd(one, big.NewInt(1)), bmul(one, 2), new(big.Int).Neg(one)).String())
+	case 1:
+		out = append(out, []string{"sess_delay", "sub_delay", "node_active"}[g.pick(3)], g.oneOf(big.NewInt(0), big.NewInt(-5), i64, new(big.Int).Neg(i64)).String())
+	case 2:
+		out = append(out, []string{"max_sub_gb", "min_sub_gb", "max_sub_hr", "min_sub_hr"}[g.pick(4)], g.oneOf(big.NewInt(0), big.NewInt(-1), i64).String())
+	case 3:
+		out = append(out, []string{"node_deposit", "prov_deposit"}[g.pick(2)], coinTok(Coin{1 + g.pick(2), g.oneOf(big.NewInt(-1), big.NewInt(-1000))}))
+	case 4:
+		out = append(out, []string{"node_deposit", "prov_deposit"}[g.pick(2)], coinTok(Coin{0, big.NewInt(10)}))
+	case 5:
+		k := []string{"max_gb", "min_gb", "max_hr", "min_hr"}[g.pick(4)]
+		bad := [][]Coin{
+			{{1, big.NewInt(0)}},
+			{{1, big.NewInt(-3)}},
+			{{2, big.NewInt(5)}, {1, big.NewInt(5)}},
+			{{1, big.NewInt(5)}, {1, big.NewInt(6)}},
+			{{0, big.NewInt(5)}},
+			{{1, big.NewInt(5)}, {2, big.NewInt(0)}},
+		}
+		out = append(out, k, coinsTok(bad[g.pick(len(bad))], false))
+	case 6:
+		out = append(out, "swap_denom", "0")
+	case 7:
+		// a valid change first, the refused one last: nothing of the proposal may stay
+		out = append(out, "node_share", g.share().String(), "prov_share", badd(one, big.NewInt(7)).String())
+	case 8:
+		out = append(out, "max_sub_hr", "5", "min_sub_hr", "0")
+	}
+	seen := map[string]bool{}
+	dedup := []string{}
+	for i := 0; i+1 < len(out); i += 2 {
+		if !seen[out[i]] {
+			seen[out[i]] = true
+			dedup = append(dedup, out[i], out[i+1])
+		}
+	}
+	return dedup
+}
+
+// relatedTx: an owner-restricted message whose sender is a PARTY of the record without being its owner: a holder of
+// shared quota cancelling / re-sharing the subscription, the plan's provider or the node acting on a subscription,
+// the subscription's owner ending a co-holder's session, another node linked to the plan reporting usage, ...
+func (g *Gen) relatedTx() []string {
+	ctx := g.e.ctx
+	vk := g.e.vk
+	subs := vk.Subscription.GetSubscriptions(ctx)
+	sessions := vk.Session.GetSessions(ctx)
+	switch g.pick(5) {
+	case 0, 1: // subscription messages by a non-owner party
+		if len(subs) == 0 {
+			return nil
+		}
+		sb := subs[g.pick(len(subs))]
+		owner := sb.GetAddress()
+		parties := [][]byte{}
+		for _, al := range vk.Subscription.GetAllocationsForSubscription(ctx, sb.GetID()) {
+			if ad, err := sdk.AccAddressFromBech32(al.Address); err == nil && string(ad.Bytes()) != string(owner.Bytes()) {
+				parties = append(parties, ad.Bytes())
+			}
+		}
+		switch x := sb.(type) {
+		case *subscriptiontypes.NodeSubscription:
+			parties = append(parties, x.GetNodeAddress().Bytes())
+		case *subscriptiontypes.PlanSubscription:
+			if pl, ok := vk.Plan.GetPlan(ctx, x.PlanID); ok {
+				parties = append(parties, pl.GetProviderAddress().Bytes())
+			}
+		}
+		for _, ss := range sessions {
+			if ss.SubscriptionID == sb.GetID() {
+				parties = append(parties, ss.GetNodeAddress().Bytes())
+			}
+		}
+		if len(parties) == 0 {
+			return nil
+		}
+		from := parties[g.pick(len(parties))]
+		if g.chance(0.6) {
+			return []string{"sub_cancel", g.ta('a', from).Tok(), fmt.Sprint(sb.GetID())}
+		}
+		to := g.actors[g.pick(len(g.actors))].Bytes
+		return []string{"sub_allocate", g.ta('a', from).Tok(), fmt.Sprint(sb.GetID()), g.ta('a', to).Tok(), g.oneOf(big.NewInt(0), big.NewInt(1), bmul(gb, 1)).String()}
+	case 2: // a session ended by its subscription's owner, its node, or another holder
+		if len(sessions) == 0 {
+			return nil
+		}
+		ss := sessions[g.pick(len(sessions))]
+		parties := [][]byte{ss.GetNodeAddress().Bytes()}
+		if sb, ok := vk.Subscription.GetSubscription(ctx, ss.SubscriptionID); ok && string(sb.GetAddress().Bytes()) != string(ss.GetAddress().Bytes()) {
+			parties = append(parties, sb.GetAddress().Bytes())
+		}
+		for _, al := range vk.Subscription.GetAllocationsForSubscription(ctx, ss.SubscriptionID) {
+			if ad, err := sdk.AccAddressFromBech32(al.Address); err == nil && string(ad.Bytes()) != string(ss.GetAddress().Bytes()) {
+				parties = append(parties, ad.Bytes())
+			}
+		}
+		return []string{"sess_end", g.ta('a', parties[g.pick(len(parties))]).Tok(), fmt.Sprint(ss.ID), fmt.Sprint(g.pick(11))}
+	case 3: // a usage report by another node (one linked to the same plan when there is one), signed correctly
+		if len(sessions) == 0 {
+			return nil
+		}
+		ss := sessions[g.pick(len(sessions))]
+		var other []byte
+		for _, n := range vk.Node.GetNodes(ctx) {
+			if string(n.GetAddress().Bytes()) != string(ss.GetNodeAddress().Bytes()) {
+				other = n.GetAddress().Bytes()
+				if g.chance(0.5) {
+					break
+				}
+			}
+		}
+		if other == nil {
+			other = ss.GetAddress().Bytes()
+		}
+		up := big.NewInt(int64(1 + g.pick(1000000)))
+		dur := int64(g.pick(5000))
+		proof := sessiontypes.Proof{ID: ss.ID, Bandwidth: hubtypes.NewBandwidth(intOf(up), intOf(big.NewInt(0))), Duration: time.Duration(dur)}
+		bz, _ := proof.Marshal()
+		sig := "nil"
+		for _, ac := range g.actors {
+			if ac.Priv != nil && string(ac.Bytes) == string(ss.GetAddress().Bytes()) {
+				sb, _ := ac.Priv.Sign(bz)
+				sig = hex.EncodeToString(sb)
+			}
+		}
+		return []string{"sess_update", g.ta('n', other).Tok(), fmt.Sprint(ss.ID), up.String(), "0", fmt.Sprint(dur), sig, "0"}
+	case 4: // plan messages by another provider, or by a node linked to the plan
+		plans := vk.Plan.GetPlans(ctx)
+		if len(plans) == 0 {
+			return nil
+		}
+		pl := plans[g.pick(len(plans))]
+		parties := [][]byte{}
+		for _, pv := range vk.Provider.GetProviders(ctx) {
+			if string(pv.GetAddress().Bytes()) != string(pl.GetProviderAddress().Bytes()) {
+				parties = append(parties, pv.GetAddress().Bytes())
+			}
+		}
+		linked := vk.Node.GetNodesForPlan(ctx, pl.ID)
+		for _, n := range linked {
+			parties = append(parties, n.GetAddress().Bytes())
+		}
+		if len(parties) == 0 {
+			return nil
+		}
+		from := g.ta('p', parties[g.pick(len(parties))]).Tok()
+		nodes := vk.Node.GetNodes(ctx)
+		switch {
+		case len(linked) > 0 && g.chance(0.4):
+			return []string{"plan_unlink", from, fmt.Sprint(pl.ID), g.ta('n', linked[g.pick(len(linked))].GetAddress().Bytes()).Tok()}
+		case len(nodes) > 0 && g.chance(0.5):
+			return []string{"plan_link", from, fmt.Sprint(pl.ID), g.ta('n', nodes[g.pick(len(nodes))].GetAddress().Bytes()).Tok()}
+		default:
+			return []string{"plan_update_status", from, fmt.Sprint(pl.ID), fmt.Sprint(1 + g.pick(2))}
+		}
 	}
 	return nil
 }
